@@ -18,7 +18,7 @@ def fpPow (a : UInt64) (e : Nat) : UInt64 := Id.run do
   return r
 instance : Div Fp := ⟨fun a b => ⟨(a.v0 * fpPow b.v0 4294967289) % fpP, (a.v1 * fpPow b.v1 4294967289) % fpP⟩⟩
 
-def parseInt (s : String) : Option Int :=
+private def parseInt (s : String) : Option Int :=
   if s.startsWith "-" then (s.drop 1).toNat?.map fun k => -(k : Int) else s.toNat?.map fun k => (k : Int)
 
 def parseRanges (s : String) : Option (List Seq) :=
@@ -28,7 +28,7 @@ def parseRanges (s : String) : Option (List Seq) :=
     | some [f, l, st] => some ⟨f, l, st⟩
     | _ => none
 
-def parseDims (s : String) : Option (List Nat) := (s.splitOn "x").mapM String.toNat?
+private def parseDims (s : String) : Option (List Nat) := (s.splitOn "x").mapM String.toNat?
 
 structure WSpec where
   op : WOp
